@@ -64,13 +64,11 @@ static std::vector<Op> make_ops()
   add(V_ARR, 0, 0, 0, "V0 = new ArrayView(arr)", "ArrayView(array&)");
   for (int b = 0; b < 3; b++)
     add(V_PTR, 0, 0, b, std::string("V0 = new ArrayView S0") + var[b], "ArrayView(T*,size_t)");
-  add(V_PTR, 0, 1, 1, std::string("V0 = new ArrayView S1") + var[1], "ArrayView(T*,size_t)");
   add(V_MAKE, 0, 1, 0, "V0 = new ArrayView(make_ArrayView S1(data,size))", "make_ArrayView");
   add(V_NULL, 0, 0, 0, "V0 = new ArrayView(nullptr,0)", "ArrayView(T*,size_t)");
   add(V_RESET, 0, 0, 0, "V0->reset()", "reset()");
-  for (int b = 0; b < 3; b++)
+  for (int b = 0; b < 2; b++)
     add(V_RESET_PTR, 0, 1, b, std::string("V0->reset S1") + var[b], "reset(T*,size_t)");
-  add(V_RESET_PTR, 0, 0, 1, std::string("V0->reset S0") + var[1], "reset(T*,size_t)");
   add(V_RESET_NULL, 0, 0, 0, "V0->reset(nullptr,0)", "reset(T*,size_t)");
   add(V_ASSIGN_VEC, 0, 0, 0, "*V0 = S0", "operator=(vector&)");
   add(V_ASSIGN_VEC, 0, 1, 0, "*V0 = S1", "operator=(vector&)");
@@ -84,13 +82,10 @@ static std::vector<Op> make_ops()
   add(V_PTR, 1, 1, 1, std::string("V1 = new ArrayView S1") + var[1], "ArrayView(T*,size_t)");
   add(V_COPY_CTOR, 1, 0, 0, "V1 = new ArrayView(*V0)", "copy constructor");
   add(V_COPY_ASSIGN, 1, 0, 0, "*V1 = *V0", "copy assignment");
-  add(V_RESET, 1, 0, 0, "V1->reset()", "reset()");
-  add(V_ASSIGN_ARR, 1, 0, 0, "*V1 = arr", "operator=(array&)");
   add(V_WRITE, 1, 0, 0, "(*V1)[0] = fresh", "write through view");
   add(V_DESTROY, 1, 0, 0, "delete V1", "destructor");
   // sources
   add(S_SET, 0, 0, 0, "S0 := fresh buffer of 0", "source replaced");
-  add(S_SET, 0, 2, 0, "S0 := fresh buffer of 2", "source replaced");
   add(S_SET, 0, 4, 0, "S0 := fresh buffer of 4", "source replaced");
   add(S_POKE, 0, 0, 0, "S0.back() = fresh", "source written");
   add(S_KILL, 0, 0, 0, "delete S0", "source destroyed");
